@@ -118,7 +118,11 @@ func newExec(c *Case) (*exec, error) {
 	x.lockA = x.A.GetTransactionManager().GetRWLock()
 	x.lockB = x.B.GetTransactionManager().GetRWLock()
 	x.reg = transaction.NewRegistry()
-	x.srv = service.NewKevoServiceServer(x.A, x.reg, nil)
+	if c.Topo != nil {
+		x.srv = service.NewKevoServiceServer(x.A, x.reg, topoProvider{c.Topo})
+	} else {
+		x.srv = service.NewKevoServiceServer(x.A, x.reg, nil)
+	}
 	lis := bufconn.Listen(64 << 10)
 	x.gs = grpc.NewServer()
 	pb.RegisterKevoServiceServer(x.gs, x.srv)
@@ -918,6 +922,28 @@ func (x *exec) do(i int) (f *Failure, inc *inconclusive, skipped bool) {
 		}
 	case "nodeinfo":
 		in := res.info
+		if tp := x.c.Topo; tp != nil {
+			wantRole := pb.GetNodeInfoResponse_STANDALONE
+			switch tp.Role {
+			case "primary":
+				wantRole = pb.GetNodeInfoResponse_PRIMARY
+			case "replica":
+				wantRole = pb.GetNodeInfoResponse_REPLICA
+			}
+			if in.NodeRole != wantRole || in.ReadOnly != tp.ReadOnly || in.PrimaryAddress != tp.Primary || in.LastSequence != tp.LastSeq ||
+				in.Version != version.GetVersion() || len(in.Replicas) != len(tp.Replicas) {
+				return fail("nodeinfo-differs-from-topology", "the replication manager reports role=%q primary=%q last_sequence=%d read_only=%v replicas=%d (nil list: %v); GetNodeInfo answers role=%v primary=%q last_sequence=%d read_only=%v replicas=%d version=%q",
+					tp.Role, tp.Primary, tp.LastSeq, tp.ReadOnly, len(tp.Replicas), tp.NilList, in.NodeRole, in.PrimaryAddress, in.LastSequence, in.ReadOnly, len(in.Replicas), in.Version), nil, false
+			}
+			for ri, rp := range tp.Replicas {
+				g := in.Replicas[ri]
+				metaOK := (rp.MetaKey == "" && len(g.Meta) == 0) || (rp.MetaKey != "" && len(g.Meta) == 1 && g.Meta[rp.MetaKey] == "v")
+				if g.Address != rp.Address || g.LastSequence != rp.LastSeq || g.Available != rp.Available || g.Region != rp.Region || !metaOK {
+					return fail("nodeinfo-replica-differs", "replica %d: reported %+v, GetNodeInfo answers address=%q last_sequence=%d available=%v region=%q meta=%v", ri, rp, g.Address, g.LastSequence, g.Available, g.Region, g.Meta), nil, false
+				}
+			}
+			break
+		}
 		if in.NodeRole != pb.GetNodeInfoResponse_STANDALONE || in.ReadOnly != x.A.IsReadOnly() || in.PrimaryAddress != "" ||
 			len(in.Replicas) != 0 || in.LastSequence != 0 || in.Version != version.GetVersion() {
 			return fail("not-standalone", "role=%v read_only=%v primary=%q replicas=%d last_sequence=%d version=%q", in.NodeRole, in.ReadOnly, in.PrimaryAddress, len(in.Replicas), in.LastSequence, in.Version), nil, false
@@ -1100,4 +1126,22 @@ func runCase(c *Case) (f *Failure, inc *inconclusive, st runStats) {
 		}
 	}
 	return nil, nil, st
+}
+
+// topoProvider is the stand-in for the replication manager.
+type topoProvider struct{ t *Topo }
+
+func (p topoProvider) GetNodeInfo() (string, string, []service.ReplicaInfo, uint64, bool) {
+	var list []service.ReplicaInfo
+	if !p.t.NilList {
+		list = []service.ReplicaInfo{}
+	}
+	for _, r := range p.t.Replicas {
+		ri := service.ReplicaInfo{Address: r.Address, LastSequence: r.LastSeq, Available: r.Available, Region: r.Region}
+		if r.MetaKey != "" {
+			ri.Meta = map[string]string{r.MetaKey: "v"}
+		}
+		list = append(list, ri)
+	}
+	return p.t.Role, p.t.Primary, list, p.t.LastSeq, p.t.ReadOnly
 }
